@@ -18,7 +18,7 @@ import vlib
 from vlib import CheckError
 
 PID = "C13"
-REPLAYS = ["f3a", "f3b", "f3c", "f3d", "upkey", "collide", "close2", "closefault", "tunfail", "sendinflight", "fullqueue"]
+REPLAYS = ["f3a", "f3b", "f3c", "f3d", "upkey", "collide", "close2", "closefault", "tunfail", "bindfault", "sendinflight", "fullqueue"]
 REPLAY_DOC = {
     "f3a": "BindUpdate (net.Lock -> peers.RLock) vs UAPI remove peer (peers.Lock, Peer.Stop waits for the sender blocked in SendBuffers on net.RLock); Proofs.bindupdate_vs_removepeer_deadlocks",
     "f3b": "UAPI private_key equal to a peer's key (staticIdentity.Lock + peers.Lock, Peer.Stop waits for the sender) vs the sender's rekey (CreateMessageInitiation -> staticIdentity.RLock); Proofs.setprivatekey_collision_vs_sender_rekey_deadlocks",
@@ -27,6 +27,7 @@ REPLAY_DOC = {
     "close2": "scenario that must hold: two overlapping Close() calls while (A) a UAPI set on a stalled pipe holds ipcMutex / (B) Up is parked in bind.Open holding state.mu; nothing panics, device closed, goroutines gone",
     "closefault": "scenario that must hold: bind.Close reports an error although it closed and receive calls notice only after 300 ms; when Down / Close return no RoutineReceiveIncoming goroutine is parked in its loop",
     "f3d": "Down (peers.RLock, Peer.Stop waits for the peer's routine) vs that routine's rekey (CreateMessageInitiation -> staticIdentity.RLock) vs UAPI private_key, any key (staticIdentity.Lock -> peers.Lock); Proofs.down_vs_setprivatekey_vs_sender_rekey_deadlocks",
+    "bindfault": "scenario that must hold: Up with a failing bind.Open, then a fwmark change refused by bind.SetMark on an up device; every later control call (IpcGet, fwmark, listen_port, Down, Up, Close) returns",
     "tunfail": "scenario that must hold: a fatal TUN read error under a running device; device.Wait() fires, every later call returns, bind closed, goroutines gone",
     "sendinflight": "scenario that must hold: a data send parked inside bind.Send (SendGate) while Down / BindUpdate / Close run; none of them may return before the send is released",
     "fullqueue": "scenario that must hold: a peer's outbound (sender parked in bind.Send) or inbound (receiver parked in tun.Write) queue exactly full (1024) when UAPI remove / Down / Close stop the peer; after the gate is released every call returns and all goroutines terminate",
@@ -382,7 +383,7 @@ def check(tier, seed):
             # not a stable blocked set after 30 s of waiting: no verdict from this replay
             replay_summary[m] = "inconclusive: " + r["note"]
         elif r.get("hang"):
-            if m in ("collide", "close2", "closefault", "tunfail", "sendinflight", "fullqueue") and r["key"].startswith("hang-"):
+            if m in ("collide", "close2", "closefault", "tunfail", "bindfault", "sendinflight", "fullqueue") and r["key"].startswith("hang-"):
                 # a must-hold scenario whose calls do not return: name the clause ("every call returns")
                 r["key"] = "%s-call-never-returns-%s" % (m, r["key"][5:])
             replay_summary[m] = r["key"]
@@ -518,7 +519,7 @@ def check(tier, seed):
         "obligations": obligations, "discharged": max(discharged, 0),
         "obligation_names": theorems + ["K.C13." + k for k in K_NAMES],
         "checker_cmd": " ; ".join(cmds + ["coqc -Q coq/theories WG theories/Props/C13.v", "coqc -Q coq/theories WG out/C13/*/cases_C13_*.v (vm_compute)",
-                                          "out/bin/c13locks -repo <tree> -v coq/theories/Gen/LockEdges.v ; coqc out/C13/lockedges/LockEdgesRun.v", "out/bin/c13 -mode f3a|f3b|f3c|f3d|upkey|collide|close2|closefault|tunfail", "out/bin/c13[-race] -mode stress -seed S -dur %d" % dur]),
+                                          "out/bin/c13locks -repo <tree> -v coq/theories/Gen/LockEdges.v ; coqc out/C13/lockedges/LockEdgesRun.v", "out/bin/c13 -mode f3a|f3b|f3c|f3d|upkey|collide|close2|closefault|tunfail|bindfault", "out/bin/c13[-race] -mode stress -seed S -dur %d" % dur]),
         "trusted_base": vlib.TRUSTED_BASE_COMMON + [
             "the lock programs and the automaton are hand-written from device.go/peer.go/uapi.go/send.go/receive.go/timers.go/noise-protocol.go; one peer; tied to the code by the replays (each model deadlock reproduces) and by the trace monitor",
             "Go race detector, runtime.Stack parsing (hang signatures, census), sim.Bind's own log and global sequence numbers",
